@@ -40,9 +40,19 @@ def main(argv=None):
     ap.add_argument('--replay')
     ap.add_argument('--setup', action='store_true')
     ap.add_argument('--selftest', action='store_true')
+    ap.add_argument('--extended', action='store_true', help='run every extended-coverage check X01.. in turn')
     a = ap.parse_args(argv)
     if a.setup:
         return setup()
+    if a.extended:
+        import glob
+        here = os.path.dirname(__file__)
+        rc = 0
+        for f in sorted(glob.glob(os.path.join(here, 'props', 'x[0-9][0-9].py'))):
+            pid = os.path.basename(f)[:-3].upper()
+            r = main([pid, '--tier', a.tier])
+            rc = max(rc, r)
+        return rc
     if not a.pid:
         ap.error('property id required')
     pid = a.pid.upper()
